@@ -216,6 +216,21 @@ Definition kstep_atomic (s : kstate) (l : klabel) : option (kstate * option (str
   | _ => None
   end.
 
+(** variant (not the code): a throttle that finds the key's limiter "stale" — created under other
+    values of the package variables RateLimitEvents / RateLimitEventsWindow — registers a fresh
+    one under the same key.  Only to state what goes wrong: the key's admission history is lost. *)
+Definition kstep_refresh (stale : nat -> bool) (s : kstate) (l : klabel) : option (kstate * option (str * nat)) :=
+  match l with
+  | KThrottle _ key =>
+      match klookup key (kmap s) with
+      | Some lim =>
+          if stale lim then Some (KSt ((key, knext s) :: kmap s) (S (knext s)) (kpend s), Some (key, knext s))
+          else Some (s, Some (key, lim))
+      | None => Some (KSt ((key, knext s) :: kmap s) (S (knext s)) (kpend s), Some (key, knext s))
+      end
+  | _ => None
+  end.
+
 Fixpoint take_pend (tid : nat) (p : list (nat * str)) : option (str * list (nat * str)) :=
   match p with
   | [] => None
